@@ -42,6 +42,13 @@ using namespace mfuse;
 namespace {
 std::ostringstream g_out, g_warn, g_err;
 
+// deterministic run-away guard: the injected clock (hook H1) advances by one per reading, i.e. by one per
+// executed instruction; with loop protection on, a thread that executes more than kMaxTicks instructions
+// in one activation is aborted with CommandOverflow (a mutant that turns a loop infinite must not hang the check)
+uint64_t g_ticks = 0;
+uint64_t clockFn() { return ++g_ticks; }
+const uint64_t kMaxTicks = 3000000;
+
 std::string unhex(const std::string& h)
 {
     std::string s;
@@ -159,6 +166,8 @@ void setup(ScriptContext& ctx)
     oi.SetOutputStream(outputLevel_e::Debug, nullptr);
     oi.SetOutputStream(outputLevel_e::Verbose, nullptr);
     ctx.GetSettings().SetDeveloperEnabled(false);
+    ctx.GetDirector().GetThreadExecutionProtection().SetMaxExecutionTime(kMaxTicks);
+    ctx.GetDirector().GetThreadExecutionProtection().SetLoopProtection(true);
     g_out.str(""); g_out.clear(); g_warn.str(""); g_warn.clear(); g_err.str(""); g_err.clear();
 }
 
@@ -292,6 +301,7 @@ std::string treeOf(const std::string& src)
 
 int main()
 {
+    verif::now_ms = &clockFn;
     std::vector<std::string> t;
     while (readTokens(t)) {
         if (t.empty()) { say("bad-op"); continue; }
